@@ -436,14 +436,42 @@ def build(prop, thorough, rnd):
                     cnt += 1
                     add(ts[j % len(ts)], air, acts(kind, oo), files=bool(files_every and cnt % files_every == 0))
 
+    def sweep(kinds):
+        """Prose-length sweep (word wrap on, default text on): the wrap boundary visits every position of the announcement."""
+        want = ["intPos", "str", "none", "boolT", "float", "strNum", "code", "intNeg", "int0", "strEmpty"]
+        picked, seen = [], set()
+        for air in single:
+            ps = air["params"]
+            if len(ps) == 1 and ps[0]["dbase"] == "own" and ps[0]["def"] in want and not air["ret"]["present"] and air["doc"] == "one":
+                key = (ps[0]["def"], ps[0]["dstop"])
+                if key not in seen and (ps[0]["dstop"] or ps[0]["def"] in ("intPos", "str")):
+                    seen.add(key)
+                    picked.append(air)
+            if not ps and air["ret"]["present"] and air["ret"]["dbase"] == "own" and air["ret"]["def"] == "code" and air["ret"]["typ"] != "none" \
+                    and ("ret", air["ret"]["typ"]) not in seen and len([k for k in seen if k[0] == "ret"]) < 2:
+                seen.add(("ret", air["ret"]["typ"]))
+                picked.append(air)
+        lengths = range(40, 104) if thorough else range(50, 98)
+        for length in lengths:
+            tb = D.sweep_table(length)
+            for kind in kinds:
+                for o in kind_opts(kind, False)[:1] if kind not in ("function", "method") else [x for x in kind_opts(kind, False) if x["dd"]][:2]:
+                    oo = dict(o, dd=True, wrap=True)
+                    for air in picked:
+                        add(tb, air, [("emit", kind, oo), ("parse",)])
+
     if prop == "C01":
         roundtrips(DOC)
+        sweep(DOC)
     elif prop == "C02":
         roundtrips(("class",))
+        sweep(("class",))
     elif prop == "C03":
         roundtrips(("function", "method"))
+        sweep(("function", "method"))
     elif prop == "C04":
         roundtrips(("argparse",))
+        sweep(("argparse",))
     elif prop == "C06":
         roundtrips(("class", "function", "method", "argparse"), view=True, files_every=(3 if thorough else 12))
     elif prop == "C08":
